@@ -2,7 +2,7 @@
    precondition of ordered_map_valid*_stream (valid entries in range and non-decreasing) unless one
    key value is repeated on BOTH sides (then the right-hand map is not monotone: F-C02f). *)
 From Coq Require Import ZArith List Lia Bool.
-From EV Require Import Res Arr JoinSpec JoinBase JoinIface JoinRows MapStreamSpec.
+From EV Require Import Res Arr JoinSpec JoinBase JoinIface JoinRows MapStream MapStreamSpec MapStreamBase.
 Import ListNotations.
 Open Scope Z_scope.
 
@@ -246,6 +246,28 @@ Lemma nbd_right_unique L R : ssorted R -> nbd L R.
 Proof.
   intros HR. induction L as [|x t IH]; [exact I|]. cbn [nbd]. split; [|exact IH].
   intros _. apply matches_unique. exact HR.
+Qed.
+
+(* ---------------------------------------------------------------- in range, whatever the order *)
+Lemma in_range_map_of_In n inv (m:list Z) : (forall k, In k m -> k = inv \/ 0 <= k < n) -> in_range_map n inv m.
+Proof.
+  intros H i Hi Hne. unfold nthZ, nthd in *.
+  destruct (H (nth (Z.to_nat i) m 0)) as [He|Hr]; [|contradiction|exact Hr].
+  apply nth_In. unfold len in Hi. lia.
+Qed.
+
+(* both sides of the relational join are in range for ANY key columns: this is all that the map streams
+   need after fix-F-C02f *)
+Theorem join_fst_in_range emit inv L R : in_range_map (len L) inv (map fst (join_spec emit inv L R)).
+Proof.
+  rewrite <- jf_spec. apply in_range_map_of_In. intros k Hk. apply in_map_iff in Hk. destruct Hk as (p & <- & Hp).
+  right. pose proof (jf_range emit inv R L 0 p Hp) as (H1 & _). lia.
+Qed.
+
+Theorem join_snd_in_range emit inv L R : in_range_map (len R) inv (map snd (join_spec emit inv L R)).
+Proof.
+  rewrite <- jf_spec. apply in_range_map_of_In. intros k Hk. apply in_map_iff in Hk. destruct Hk as (p & <- & Hp).
+  exact (proj2 (jf_range emit inv R L 0 p Hp)).
 Qed.
 
 (* ---------------------------------------------------------------- exported *)
